@@ -660,7 +660,7 @@ pub fn main(env: &Env) -> i32 {
     ];
     let seed = env.seed;
     let thorough = env.thorough;
-    let n = if thorough { env.scaled(150_000) } else { env.scaled(2_500) };
+    let n = if thorough { env.scaled(150_000) } else { env.scaled(6_000) };
     let corpus: Vec<(String, Vec<u8>)> = gen::corpus(false).into_iter().filter(|(_, b)| b.len() < 40_000).collect();
     rep.rule = format!(
         "{} seeded scenarios + {} corpus-file scenarios: a generated mapping (0..8 classes x 0..10 members) is written and parsed once; one cache, one mapper, one mapper-with-params and one mapping are shared by 2..{} real threads; \
